@@ -847,6 +847,11 @@ class World:
     def _run_ops(self, ops, top, buf=None, host=None):
         for op in ops:
             a = self.actors[op["a"]]
+            if a.active and op["op"] in ("results", "evq") and a.created and a.aborted is None:
+                # a READ of the host solver itself from inside its own objective / listener call-out (an objective that
+                # logs the current best, a listener that maps a point back onto the curve): legal, and it must not steer
+                self.exec_self_read(a, op, host)
+                continue
             if a.active:
                 self.inconclusive["skipped_self_reentry"] += 1
                 continue
@@ -868,6 +873,34 @@ class World:
             self._run_ops(ops, top=False, host=host)
         finally:
             self.depth -= 1
+
+    def exec_self_read(self, a, op, host=None):
+        kind = op["op"]
+        if a.cur_op == "solve" and a.params.get("refineSolution") and a.cb_depth == 0:
+            # inside an evaluation of a refining Solve the seam cannot yet tell a global trial from a Nelder-Mead
+            # evaluation (phases are delimited by public events only): no oracle is consulted at such a moment
+            self.inconclusive["self_read_in_undecided_phase"] += 1
+            return
+        self.n_ops += 1
+        self.sig.append((a.aid, "self_" + kind, 0, host.aid if host else "-"))
+        self.log("op", a.aid, "self-read %s" % kind)
+        self.fired["self_read_inside_callout"] += 1
+        outcome = {"raised": None, "result": None, "self_read": True}
+        try:
+            if kind == "results":
+                outcome["result"] = a.solver.GetResults()
+            else:
+                outcome["evq"] = a.query_evolvent(op)
+        except HarnessError:
+            raise
+        except BaseException as e:
+            _reraise_if_harness(e)
+            outcome["raised"] = "%s: %s" % (type(e).__name__, e)
+            self.log("op_raised", a.aid, "self-read %s %s" % (kind, type(e).__name__))
+        if outcome["result"] is not None:
+            a.solutions.append(_snapshot_solution(self, a, outcome["result"], "self_results"))
+        for mon in self.monitors:
+            mon.on_op_end(self, a, op, outcome)
 
     def exec_op(self, a, op, host=None):
         kind = op["op"]
